@@ -31,11 +31,11 @@ const (
 )
 
 type AVal struct {
-	K   AKind
-	C   constant.Value // AConst; nil means the nil constant
-	Sym string
-	G   *ssa.Global
-	Tup []AVal
+	K    AKind
+	C    constant.Value // AConst; nil means the nil constant
+	Sym  string
+	G    *ssa.Global
+	Tup  []AVal
 	Keys map[string]AVal
 	Obj  *ssa.Alloc
 	// Alts: for the result tuple of an analysed callee with several executable returns, the tuple of each return
@@ -85,13 +85,13 @@ var (
 	nonNil = AVal{K: ANonNil}
 )
 
-func cInt(i int64) AVal        { return AVal{K: AConst, C: constant.MakeInt64(i)} }
-func cUint(i uint64) AVal      { return AVal{K: AConst, C: constant.MakeUint64(i)} }
-func cBool(b bool) AVal        { return AVal{K: AConst, C: constant.MakeBool(b)} }
-func sym(name string) AVal     { return AVal{K: ASym, Sym: name} }
-func cStr(s string) AVal       { return AVal{K: AConst, C: constant.MakeString(s)} }
-func (a AVal) isNil() bool     { return a.K == AConst && a.C == nil }
-func (a AVal) isConst() bool   { return a.K == AConst && a.C != nil }
+func cInt(i int64) AVal      { return AVal{K: AConst, C: constant.MakeInt64(i)} }
+func cUint(i uint64) AVal    { return AVal{K: AConst, C: constant.MakeUint64(i)} }
+func cBool(b bool) AVal      { return AVal{K: AConst, C: constant.MakeBool(b)} }
+func sym(name string) AVal   { return AVal{K: ASym, Sym: name} }
+func cStr(s string) AVal     { return AVal{K: AConst, C: constant.MakeString(s)} }
+func (a AVal) isNil() bool   { return a.K == AConst && a.C == nil }
+func (a AVal) isConst() bool { return a.K == AConst && a.C != nil }
 func (a AVal) boolVal() (bool, bool) {
 	if a.isConst() && a.C.Kind() == constant.Bool {
 		return constant.BoolVal(a.C), true
@@ -241,15 +241,15 @@ func join(a, b AVal) AVal {
 
 // Scenario binds SSA values to abstract values.
 type Scenario struct {
-	Name    string
-	Params  map[string]AVal // parameter name (of the entry function, or "fn:param")
-	Paths   map[string]AVal // access path of a load / field read ("tx.Conversion", or "fn:path")
-	Calls   map[string]AVal // callee: full name, short name, or "recvpath.Method()"
-	Lookups map[string]AVal // access path of a map lookup ("rates[tx.Conversion]")
-	Lens    map[string]AVal // len(path)
-	Globals map[string]AVal // overrides "pkg.Name"
-	Phis    map[string]AVal // loop/merge variable by source name (Phi.Comment), e.g. induction variable "i"
-	Order   func(a, b AVal) (int, bool)
+	Name     string
+	Params   map[string]AVal // parameter name (of the entry function, or "fn:param")
+	Paths    map[string]AVal // access path of a load / field read ("tx.Conversion", or "fn:path")
+	Calls    map[string]AVal // callee: full name, short name, or "recvpath.Method()"
+	Lookups  map[string]AVal // access path of a map lookup ("rates[tx.Conversion]")
+	Lens     map[string]AVal // len(path)
+	Globals  map[string]AVal // overrides "pkg.Name"
+	Phis     map[string]AVal // loop/merge variable by source name (Phi.Comment), e.g. induction variable "i"
+	Order    func(a, b AVal) (int, bool)
 	MaxDepth int
 	NoInline map[string]bool // callees never analysed recursively
 	// AllErrorsNil: the "no fault, nothing rejected" scenario - every error result
@@ -268,30 +268,30 @@ type LiveCall struct {
 }
 
 type fnState struct {
-	fn     *ssa.Function
-	args   []AVal
-	val    map[ssa.Value]AVal
-	execB  map[*ssa.BasicBlock]bool
-	execE  map[[2]int]bool
-	rets   map[*ssa.Return][]AVal
-	result AVal
+	fn      *ssa.Function
+	args    []AVal
+	val     map[ssa.Value]AVal
+	execB   map[*ssa.BasicBlock]bool
+	execE   map[[2]int]bool
+	rets    map[*ssa.Return][]AVal
+	result  AVal
 	escapes []string
-	free    map[*ssa.FreeVar]AVal // values of captured variables at the closure's creation (closures called in place)
+	free    map[*ssa.FreeVar]AVal        // values of captured variables at the closure's creation (closures called in place)
 	callees map[ssa.Instruction]*fnState // state of the callee analysed for a call site (last evaluation)
 }
 
 type SCCP struct {
-	objFields map[*ssa.Alloc]map[int]AVal // values stored into the fields of local struct objects (flow-insensitive per object)
-	rootFn   *ssa.Function
-	nextFree map[*ssa.FreeVar]AVal
-	c       *Ctx
-	sc      *Scenario
-	globals map[*ssa.Global]AVal
-	memo    map[string]*fnState
-	busy    map[string]bool
-	Escapes []string
-	used    map[string]bool // binding keys that matched at least once
-	hasQualified bool       // some binding key is function-qualified ("fn:key")
+	objFields    map[*ssa.Alloc]map[int]AVal // values stored into the fields of local struct objects (flow-insensitive per object)
+	rootFn       *ssa.Function
+	nextFree     map[*ssa.FreeVar]AVal
+	c            *Ctx
+	sc           *Scenario
+	globals      map[*ssa.Global]AVal
+	memo         map[string]*fnState
+	busy         map[string]bool
+	Escapes      []string
+	used         map[string]bool // binding keys that matched at least once
+	hasQualified bool            // some binding key is function-qualified ("fn:key")
 }
 
 // globalInits reads constant initialisers of module package variables from the init functions.
@@ -430,7 +430,9 @@ func (s *SCCP) compare(op token.Token, a, b AVal) AVal {
 		return cBool(!eq)
 	}
 	if op == token.EQL || op == token.NEQ {
-		nonnil := func(x AVal) bool { return x.K == ASentinel || x.K == AFresh || x.K == ANonNil || x.K == AContainer || x.K == APtr }
+		nonnil := func(x AVal) bool {
+			return x.K == ASentinel || x.K == AFresh || x.K == ANonNil || x.K == AContainer || x.K == APtr
+		}
 		if a.isNil() && b.isNil() {
 			return res(true)
 		}
